@@ -2,7 +2,7 @@
 //! directive detection / continuation (C15) and the tag store (C14).
 use serde_json::{json, Value};
 use std::io::{BufRead, Write};
-use txtpp::verif::internals::{Directive, ReplaceLineEnding, TagState, TxtppPath};
+use txtpp::verif::internals::{Directive, GetLineEnding, ReplaceLineEnding, TagState, TxtppPath};
 
 fn dir_json(d: &Option<Directive>) -> Value {
     match d {
@@ -44,6 +44,15 @@ fn one(req: &Value) -> Value {
                 }
             }
             json!({"out": out})
+        }
+        "le" => {
+            // the line ending txtpp derives from a file with these bytes
+            let dir = std::env::temp_dir().join(format!("vh-le-{}", std::process::id()));
+            let _ = std::fs::create_dir_all(&dir);
+            let p = dir.join("probe.txtpp");
+            std::fs::write(&p, req["bytes"].as_str().unwrap().as_bytes()).unwrap();
+            let r = p.get_line_ending();
+            json!({"le": r.ok()})
         }
         "relend" => json!(req["text"].as_str().unwrap().replace_line_ending(req["le"].as_str().unwrap(), req["force"].as_bool().unwrap_or(false))),
         "pathname" => {
